@@ -16,15 +16,55 @@ NA = {
 }
 
 CHECKS = {
+ "C03": dict(
+   level="exploration", ref="4/C03",
+   text="Seeded search over (medium x stored-byte faults x delivery schedule): streams written by the real writer and by an independent foreign-ECU stub are damaged by the whole fault catalogue (bit flips, byte overwrites, LEN / NOAR / type-info / length-prefix corruption, junk, dropped / zeroed / duplicated blocks, truncation, torn writes followed by > 64 KiB fill tails) and delivered through a scripted source to four consumers that keep running after the fault: streaming slice consumer (dlt_message, 4 option combinations, pattern resync), indexer (dlt_consume_msg, skip_storage_header, random-access parses), non-verbose decode stage (construct_arguments, dlt_zero_terminated_string) and use of every returned message (as_bytes, byte_len, Argument::len/as_bytes/valid, UTF-8 re-check). catch_unwind around every call; overflow checks and debug assertions on; second pass with a Trace logger. Sampling, not a proof of panic-freedom.",
+   note="Claimed only in the form DESIGN.md section 2 item 3 allows (stored-byte fault followed by continued operation); call by call these entry points are pure functions. Not a coverage-guided fuzzer, not run under Miri: out-of-bounds reads inside safe code would surface as panics, the one unsafe block is covered by the UTF-8 re-check.",
+   technique="deterministic simulation: storage-fault injection on a simulated medium + scripted delivery to long-running consumers, no-panic / validity invariants, seeded search, minimised replay files"),
+ "C04": dict(
+   level="exploration", ref="4/C04",
+   text="Seeded search with faults confined to the payload description (so every record's declared extent is known from intact headers) plus header faults and junk; each medium is consumed with and without a drawn filter by the streaming consumer under a scripted delivery and walked by the indexer. After every single Ok the remainder must be a strict suffix starting at shift + storage header + LEN (all read from the bytes), FilteredOut(n) must equal LEN - headers, dlt_consume_msg's count must equal the distance; end to end the consumer's verdict offsets must equal an independent walk over the declared lengths.",
+   note="Trusted: the header decoder / naive search (independent of writer and parser). The scheduler only decides which bytes follow a record in the buffer at call time - exactly what the repaired defect depended on. A consumer stalled on 'incomplete' is not judged (C04 speaks about successful parses).",
+   technique="deterministic simulation: confined storage-fault injection + scripted delivery, alignment invariant after every parse against an independent length walk, seeded search, replay files"),
+ "C05": dict(
+   level="fault_enumeration", ref="4/C05",
+   text="Crash-point enumeration: for every sampled well-formed record (real writer and foreign stub, up to 64 KiB, both storage modes) EVERY truncation offset 0..len-1 is judged for dlt_message (without and with a filter) and dlt_consume_msg: must be 'incomplete', hint None or 1..=missing. The same cuts are reached dynamically by delivering clean multi-record streams through a scripted source and asserting after every arrival. Exhaustive over cut positions per record; records are sampled.",
+   note="Whether the complete record parses, and whether trailing bytes matter, is C01's statement and deliberately not judged. Well-formedness of the record is checked structurally (Cutter + header decoder) before judging.",
+   technique="deterministic simulation: exhaustive enumeration of the instant the stream stops (every cut offset) + scripted incremental delivery, protocol invariant 'incomplete with safe hint'"),
+ "C06": dict(
+   level="exploration", ref="4/C06",
+   text="Seeded search over storage-mode streams with pattern-free junk before / between / after records (biased to end in D, DL, DLT, to contain DLT\\0 and DDLT, lengths around 16 and up to 4 KiB) delivered under scripted fragmentation so that partial patterns sit at the end of the buffer at call time. forward_to_next_storage_header is compared with a naive first-match search (offset and remainder pointer) on every buffer the consumer holds; junk ++ m ++ s must parse like m ++ s; every record wholly delivered must be recovered in order exactly once.",
+   note="Runs whose record bodies contain the pattern by chance are discarded (counted), because the harness's resync policy, not the crate, would be judged. Expected items come from a second run of the real parser on the clean piece.",
+   technique="deterministic simulation: junk-sector injection + scripted delivery to a resynchronising consumer, reference-model oracle (naive search), seeded search, replay files"),
  "C07": dict(
    level="exploration", ref="4/C07",
-   text="Seeded search over (medium x read schedule x fault) for the real DltMessageReader: every read() result is a simulator decision (fragment size, Interrupted bursts, one hard error, early EOF), media are written by the real writer and damaged by the fault catalogue, reader capacities are drawn per run so the BufReader refills inside records. Checked against an independent Cutter plus slice parsing of each piece. Sampling, not proof: a clean batch is evidence over the runs executed (counts in the evidence file).",
+   text="Seeded search over (medium x read schedule x fault) for the real DltMessageReader: every read() result is a simulator decision (fragment size incl. boundary-hunting cuts, Interrupted bursts, one hard error, early EOF), media are written by the real writer and damaged by the fault catalogue, reader capacities are drawn per run so the BufReader refills inside records. Checked against an independent Cutter plus slice parsing of each piece.",
    note="Trusted: the Cutter model (40 lines), ScriptedRead obeying the Read contract, std BufReader/read_exact. Expected value of each piece comes from the real dlt_message, so parser bugs are invisible here by construction. Nothing is required after a hard I/O error, a panic or LEN < 4.",
    technique="deterministic simulation: scripted Read source (fragmentation, EINTR, EIO, EOF) + storage faults, reference-model oracle (Cutter), seeded search, minimised replay files"),
+ "C08": dict(
+   level="exploration", ref="4/C08",
+   text="Seeded search over poll schedules for the real DltStreamReader on a hand-written executor: every poll_read result (Pending bursts with parked wakers, Ready(k), early EOF, rarely a hard error) and every executor choice (which woken task runs, when a parked waker fires, double wakes, spurious polls, 1..4 interleaved reader tasks) is a recorded decision. Oracle: the blocking reader on the same bytes with an always-ready source; plus bounded progress (polls <= 2 * (Pending decisions + calls) + 16, no lost wake-up).",
+   note="No cancellation (the API documents itself as not cancel safe) and no Interrupted (outside C08's quantifier). The reference is the real blocking reader, decided separately by C07.",
+   technique="deterministic simulation: scripted AsyncRead + own executor (wake order, spurious polls) under a seeded scheduler, differential oracle against the blocking reader, bounded-liveness check, replay files"),
+ "C10": dict(
+   level="exploration", ref="4/C10",
+   text="Seeded search over (well-formed stream x read schedule x merge history): collect_statistics runs through a fragmenting / interrupting / failing source with a recording collector (exactly one visit per record, headers equal to an independent header decoder) and with StatisticInfoCollector (equal to an independent tally as maps); the stream is split at record boundaries into 1..8 parts (empty parts allowed), 0..2 identity values are added and everything is merged along a drawn history covering all orders and associations; result must equal the whole-stream statistics.",
+   note="Streams are well-formed (C10's quantifier); after truncation / I/O error only the records wholly before the cut are judged. Vector order of the statistics is not part of the property.",
+   technique="deterministic simulation: scripted Read source + seeded merge histories, reference-model oracle (header decoder + tally), replay files"),
+ "C12": dict(
+   level="fault_enumeration", ref="4/C12",
+   text="Fault enumeration on content at rest: every truncation offset of the two shipped documents and of generated documents, plus seeded byte faults, structure-aware deletions, non-numeric numbers, UTF-16 re-encoding and file-level faults (missing / empty / directory / symlink loop / empty path list). Termination is decided in steps of the XML reader through the guarded hook (budget 2*bytes+64), so a hang is a deterministic, replayable signal; no panic; answer is Some or None.",
+   note="Read-level faults (EIO, short reads) cannot be injected: the API takes paths and read_pdu/read_frame are typed to BufReader<File>. A 120 s wall-clock watchdog is only a backstop. Exhaustive per document over cut positions; documents are sampled.",
+   technique="deterministic simulation: torn-file enumeration (every byte) + stored-byte fault injection, step-clock hook for bounded liveness, replay files"),
+ "C16": dict(
+   level="exploration", ref="4/C16",
+   text="Salvage pass over post-fault state: every message the streaming consumer recovers from faulted media and from the foreign-ECU dialect stub is re-serialised; when the result has the length its header declares it must parse back identically (floats by bits) with nothing left, serialise to the same bytes again, and the salvaged stream read back by a fresh consumer under a different delivery script must yield the same sequence.",
+   note="Weakest fit of the nine (DESIGN.md 4/C16): the scheduler contributes only delivery; kept because the inputs (parser outputs outside the writer's own range) are exactly what fault injection on a stored stream produces.",
+   technique="deterministic simulation: storage-fault injection + dialect stub producer, recovery-idempotence oracle over salvaged streams, seeded search, replay files"),
 }
 
 def main():
-    hooks_commits = []
+    hooks_commits = ["28c1986"]
     m = {
       "version": 1,
       "setup_cmd": "./check.sh setup",
